@@ -73,6 +73,22 @@ impl C10 {
                 ctx.check(back == g && from_lax_raw(&back) == f.to_lax() && wf_lax(&back).is_empty(), "from_strict∘to_strict/round-trip-unchanged/value/quotient_free", || json!({"input": input(), "observed": show_lax(&from_lax_raw(&back))}));
             }
         }
+        // the same round trips over labels whose equality is coarser than identity: "unchanged" includes which of
+        // several equal labels sits on which node
+        {
+            let ft: POh<Tag, u64> = f.map_labels(|o| Tag { sort: *o, id: 0 }, |a| *a);
+            let ft = POh { w: ft.w.iter().enumerate().map(|(i, t)| Tag { sort: t.sort, id: i as u32 }).collect(), ..ft };
+            let ids = |w: &Vec<Tag>| -> Vec<(u32, u32)> { w.iter().map(|t| (t.sort, t.id)).collect() };
+            let ls = to_strict(&ft);
+            if let Some(back) = lib(ctx, "to_strict∘from_strict", "coarse_equality_labels", &input, || lax::OpenHypergraph::from_strict(ls).to_strict()) {
+                ctx.count("law:round-trip-keeps-label-identity");
+                ctx.check(ids(&back.h.w.0 .0) == ids(&ft.w), "to_strict∘from_strict/round-trip-unchanged/value/coarse_equality_labels", || json!({"input": input(), "observed": format!("{:?}", back.h.w.0 .0)}));
+            }
+            let lx = to_lax(&ft.to_lax());
+            if let Some(back) = lib(ctx, "from_strict∘to_strict", "coarse_equality_labels", &input, || lax::OpenHypergraph::from_strict(lx.to_strict())) {
+                ctx.check(ids(&back.hypergraph.nodes) == ids(&ft.w), "from_strict∘to_strict/round-trip-unchanged/value/coarse_equality_labels", || json!({"input": input(), "observed": format!("{:?}", back.hypergraph.nodes)}));
+            }
+        }
         // hypergraph-level conversion
         let lf = to_strict(&f);
         if let Some(h) = lib(ctx, "Hypergraph::from_strict", "any", &input, || lax::Hypergraph::from_strict(lf.h)) {
@@ -189,6 +205,15 @@ impl C10 {
                 ctx.count("law:to_strict-is-the-model-quotient");
                 expect_iso(ctx, "to_strict", "is-the-model-quotient", "operand", &p, m, &input);
             }
+        }
+        // over zero-sized labels only the arities decide: lax and strict composition must agree on definedness
+        {
+            let (uf, ug) = (PLax { w: vec![(); f.w.len()], e: f.e.clone(), s: f.s.clone(), t: f.t.clone(), q: f.q.clone() }, PLax { w: vec![(); g.w.len()], e: g.e.clone(), s: g.s.clone(), t: g.t.clone(), q: g.q.clone() });
+            let (xuf, xug) = (to_lax(&uf), to_lax(&ug));
+            let l = lib(ctx, "lax::compose<()>", "unit_labels", &input, || Arrow::compose(&xuf, &xug).is_some());
+            let s_ = lib(ctx, "compose<()>", "unit_labels", &input, || xuf.clone().to_strict().compose(&xug.clone().to_strict()).is_some());
+            ctx.count("law:unit-labels-definedness-agrees");
+            ctx.check(l == Some(arity_match) && s_ == Some(arity_match), "compose/defined-iff-types-match/value/unit_labels", || json!({"input": input(), "lax_some": l, "strict_some": s_, "expected_some": arity_match}));
         }
         // compose: defined iff the types match
         if let Some(c) = lib(ctx, "lax::compose", "any", &input, || Arrow::compose(&lf, &lg)) {
@@ -382,6 +407,8 @@ impl Monitor for C10 {
             ("api:append", 100),
             ("api:coproduct_assign", 100),
             ("api:lax_compose", 100),
+            ("law:round-trip-keeps-label-identity", 100),
+            ("law:unit-labels-definedness-agrees", 100),
             ("class:identity_shaped_operand_with_unified_wires", 30),
             ("law:to_strict-is-the-model-quotient", 200),
             ("law:label-mismatch-surfaces-at-quotient", 30),
